@@ -67,7 +67,7 @@ claims.update({
    'Not decided: the joint bound burst + rate*elapsed across interleavings and outages (needs Redis execution model and time); EVAL atomicity assumed.',
    'DESIGN.md 3.C03'),
  'C19': ('other', 'path enumeration of the lock/release Lua scripts (guards and flags of every SET/DEL), value flow + normal form + arithmetic width of the lease, reply mapping on all Go paths, who-writes the id',
-   'Every SET stores ARGV[1] under KEYS[1] with PX ARGV[2]; a SET not guarded by GET==ARGV[1] carries NX; the owner branch refreshes the lease and returns OK; release deletes only under GET==ARGV[1], else 0; Go uses the store only through one EVAL of exactly these scripts with [key]/[id, seconds*1000+500 computed in int]; Acquire true only for OK with nil error; Release true iff reply 1; id written only by the constructor from a 16-char random string.',
+   'Every SET stores ARGV[1] under KEYS[1] with PX ARGV[2]; a SET not guarded by GET==ARGV[1] carries NX; the owner branch refreshes the lease and returns OK; release deletes only under GET==ARGV[1], else 0; Go uses the store only through one EVAL of exactly these scripts with [key]/[id, seconds*1000+500 computed in int]; Acquire true only for OK with nil error; Release true iff reply 1; id written only by the constructor from a 16-char random string whose generator (a shared math/rand.Source) is stepped only under its exclusive lock.',
    'Not decided: mutual exclusion over histories with expiry (Redis time), uniqueness of random ids (probabilistic).',
    'DESIGN.md 3.C19'),
 })
@@ -98,18 +98,18 @@ claims.update({
 claims.update({
  'C16': ('other', 'two-generation discipline of SafeMap on all paths, LRU coherence rules, Cache API path rules and lock guards, decision table + algebraic normal forms of the rolling window',
    'SafeMap.Set writes one generation only after removing the key from the other; Get/Range/Size consult both; Del removes from the holding generation; migrations copy every entry before the source is replaced; keyLru.add moves a known key to the front / pushes a new one and evicts the back when the list outgrew the limit; removeElement unlinks, forgets, calls onEvict; Cache.Del removes data, LRU entry and timer; SetWithExpire stores, refreshes the LRU position unconditionally and sets/moves the timer by prior presence; Take fetches only inside the single flight after a second miss, caches only success; RollingWindow span table (9 orderings), offset advance (offset+span)%size, lastTime re-aligned to the last interval boundary <= now, Reduce range; all under their locks.',
-   'Not decided: equivalence to sequential reference models over operation sequences; Queue/Ring index arithmetic; expiry timing.',
+   'Not decided: equivalence to sequential reference models over operation sequences; Ring index arithmetic; expiry timing. Queue growth/wrap arithmetic is decided structurally (R6).',
    'DESIGN.md 3.C16'),
 })
 claims.update({
  'C17': ('other', 'single-decode-path rules on all paths, loader-table agreement, UseNumber-before-Decode ordering, numeric type-switch coverage, env-expansion gating, identity of the key normaliser, recursion coverage of the key-lowering walk',
-   'YAML/TOML are converted to JSON and decoded by the very same JSON entry point with the caller\'s target and options (conf and mapping variants), conversion errors returned; extension table maps .json/.yaml/.yml/.toml to exactly these loaders; every jsonx decoder enables UseNumber before Decode; the YAML converter turns all 12 Go numeric types into json.Number and recurses through slices and maps; os.ExpandEnv only under the env option and only in core/conf; the canonical-key function given to the unmarshaller is the same toLowerCase that normalised the document keys; the key-lowering walk recurses through maps and every slice element at every depth.',
+   'YAML/TOML are converted to JSON and decoded by the very same JSON entry point with the caller\'s target and options (conf and mapping variants), conversion errors returned; extension table maps .json/.yaml/.yml/.toml to exactly these loaders; every jsonx decoder enables UseNumber before Decode; the YAML converter turns all 12 Go numeric types into json.Number and recurses through slices and maps; os.ExpandEnv only under the env option and only in core/conf; the canonical-key function given to the unmarshaller is the same toLowerCase that normalised the document keys; the key-lowering walk recurses through maps and every slice element at every depth; no function of the loading pipeline returns bytes aliasing a buffer it hands back to a pool.',
    'Not decided: equality of results across formats and agreement with encoding/json (relations over decoded values), e.g. aliasing of decoded map elements.',
    'DESIGN.md 3.C17'),
 })
 claims.update({
  'C20': ('other', 'path-sensitive child coverage of every ast Format method, crash reachability over the module call graph (static + CHA) from the formatter entry points, nil-means-failure discipline of the parser constructors',
-   'On every path of every ast node\'s Format (31 types) that produces text, each child token/node/list present on that path is handed as a node to the writer or a nested Format (a child never written cannot be in the output; a token printed from bare text loses its comments); no path from format.Source / Parser.Parse / Scanner.NextToken / parser.New reaches log.Fatal*, os.Exit or an unrecovered panic except the recorded finding F6; parse* constructors return a result variable only when it is non-nil on that path (nil means failure to every caller).',
+   'On every path of every ast node\'s Format (31 types) that produces text, each child token/node/list present on that path is handed as a node to the writer or a nested Format (a child never written cannot be in the output; a token printed from bare text loses its comments); no path from format.Source / Parser.Parse / Scanner.NextToken / parser.New reaches log.Fatal*, os.Exit or an unrecovered panic except the recorded finding F6; parse* constructors return a result variable only when it is non-nil on that path (nil means failure to every caller); Format writes child lists from the node\'s own field or a complete local copy; scanString compares every consumed rune with the delimiter and end of input; parse methods that synthesise a token from several scanned tokens capture every consumed token; no parse method indexes a list that is nil on that path (found and fixed F10).',
    'Not decided: idempotence and parse-equivalence as relations over all programs; comment placement. Known finding F6: empty source reaches scanner.MustNewScanner -> log.Fatalln. tools/goctl is loaded with an alternate modfile and stand-ins for two imports missing from the offline module cache.',
    'DESIGN.md 3.C20'),
 })
